@@ -388,6 +388,21 @@ class Recognizer(IRecognizer):
 
         # Tags that don't match with what we recognized are an error,
         # because silently ignoring the conflict would get confusing.
+        if (
+                isinstance(node, yaml.MappingNode)
+                and node.tag != 'tag:yaml.org,2002:map'
+                or isinstance(node, yaml.SequenceNode)
+                and node.tag != 'tag:yaml.org,2002:seq'
+                ) and node.tag.startswith('tag:yaml.org,2002'):
+            # !!int {a: 1} and the like
+            message = ('{}\nExpected a {} and found it, but there\'s'
+                       ' a tag here claiming this is a(n) {}. That'
+                       ' makes no sense.').format(
+                               node.start_mark, expected_type.__name__,
+                               node.tag.split(':')[-1])
+            logger.debug(message)
+            return set(), (message, [])
+
         if not node.tag.startswith('tag:yaml.org,2002'):
             if node.tag in self.__registered_classes:
                 tagged_class = self.__registered_classes[node.tag]
